@@ -566,6 +566,8 @@ def _splice_body(u: Unit, body: str, file: str, first_line: int) -> List[Piece]:
         if where == "after_loop":
             ordinal = int(stmt)
             if ordinal < 1 or ordinal > len(heads):
+                if getattr(u, "optional_loops", False):
+                    continue
                 raise LostAnchor("%s: loop #%d not found for after_loop hint" % (u.name, ordinal))
             close = match_brace(m, heads[ordinal - 1][1])
             inserts.append((close + 1, "\n" + text.rstrip() + "\n", "%s:hint-after-loop%d" % (u.name, ordinal)))
@@ -574,6 +576,8 @@ def _splice_body(u: Unit, body: str, file: str, first_line: int) -> List[Piece]:
             # first position inside the body of loop N: independent of the text of any statement
             ordinal = int(stmt)
             if ordinal < 1 or ordinal > len(heads):
+                if getattr(u, "optional_loops", False):
+                    continue
                 raise LostAnchor("%s: loop #%d not found for loop_start hint" % (u.name, ordinal))
             inserts.append((heads[ordinal - 1][1] + 1, "\n" + text.rstrip() + "\n", "%s:hint-loop-start%d" % (u.name, ordinal)))
             continue
